@@ -12,7 +12,7 @@ from tiv.cfg import CFG, fmt_path
 from tiv.constfold import UNKNOWN, Folder
 from tiv.mutate import M
 from tiv.match import match_expr, match_stmt, find_stmts
-from tiv.sem import expand, same, same_bool, origin, literals, lit
+from tiv.sem import expand, same, same_bool, origin, literals, lit, trace
 
 RULES = {
     "R1": "query sites are siblings: every request passed to query_terminal ends with DA1 (the sentinel every terminal answers); the stop "
@@ -259,9 +259,11 @@ def run(ck, m):
             st0 = [s_ for s_ in body_walk(rt) if match_stmt(f"{sv} = monotonic()", s_) is not None]
             ck.ob("R6", rt, len(st0) == 1 and st0[0].lineno < timed.lineno, "the clock must start before the first wait", stmt="read_tty: start = monotonic() before waiting")
 
+            attr_vars = tuple(norm(t) for t, st_ in stores_in(ast.Module(body=rt.body, type_ignores=[])) if isinstance(st_, ast.Assign) and isinstance(t, ast.Name) and norm(st_.value).startswith("termios.tcgetattr("))
+
             def tgt_text(t):
-                return f"{norm(expand(rt, t.value))}[{norm(t.slice)}]" if isinstance(t, ast.Subscript) else norm(t)
-            vm = [s_ for s_ in body_walk(rt) if isinstance(s_, ast.Assign) and tgt_text(s_.targets[0]) == "new_attr[6][termios.VMIN]"]
+                return f"{norm(trace(rt, t.value, keep=attr_vars))}[{norm(t.slice)}]" if isinstance(t, ast.Subscript) else norm(t)
+            vm = [s_ for s_ in body_walk(rt) if isinstance(s_, ast.Assign) and any(tgt_text(s_.targets[0]) == f"{v_}[6][termios.VMIN]" for v_ in attr_vars)]
             ck.ob("R6", rt, len(vm) == 2 and same(rt, vm[0].value, "0 if timeout is None else min") and same(rt, vm[1].value, "0") and any(norm(t) == "min > 0" and b_ for t, b_ in guards(vm[1])),
                   "VMIN must be `min` only for the initial blocking read and 0 afterwards (a later read must never block on a byte count)", stmt="read_tty: VMIN reset after the min-read")
 
